@@ -66,7 +66,7 @@ def build_dataset(ctx, case, via='function', index=0, upto=('classify', 'grid'))
     return sqlite3.connect(db), db, None
 
 
-def run_curve(connection, kind, reference_mm=None, db=None, verbosity=0, row_factory=False):
+def run_curve(connection, kind, reference_mm=None, db=None, verbosity=0, row_factory=False, rollback=True):
     """rise / recession with the real code; via CLI when db is given.
     verbosity 1-3: -v / -vv / -vvv with the log sent to a file (CLI); logging configured at
     DEBUG by the caller when 3 (functions).  Returns exception or None"""
@@ -92,7 +92,8 @@ def run_curve(connection, kind, reference_mm=None, db=None, verbosity=0, row_fac
             f(connection, reference_mm)
     except Exception as exc:  # pylint: disable=broad-except
         connection.row_factory = None
-        connection.rollback()
+        if rollback:
+            connection.rollback()
         return exc
     connection.row_factory = None
     return None
